@@ -75,6 +75,9 @@ func main() {
 	if want("socket") {
 		socketCampaign(o, r, m)
 	}
+	if want("wiring") {
+		wiringCampaign(o, r)
+	}
 
 	r.ModelOps = r.Evaluations
 	r.Finish()
@@ -278,6 +281,48 @@ type call struct {
 	fb    bool
 	idx   int
 	probe bool
+	// dead: the context was already done when the upstream was called (only the
+	// in-memory world can tell): nothing would have been sent.
+	dead bool
+}
+
+// burnCtx is a context whose time the upstreams of the in-memory world can use
+// up without waiting: an upstream that never answers ("bh") holds its request
+// until the deadline of the context, which is then done for everything after
+// it.  It reports context.DeadlineExceeded like a real expired deadline.
+type burnCtx struct {
+	context.Context
+	done  chan struct{}
+	burnt bool
+}
+
+type burnKey struct{}
+
+func newBurnCtx() *burnCtx { return &burnCtx{Context: context.Background(), done: make(chan struct{})} }
+
+func (c *burnCtx) Done() <-chan struct{} { return c.done }
+
+func (c *burnCtx) Err() error {
+	if c.burnt {
+		return context.DeadlineExceeded
+	}
+
+	return nil
+}
+
+func (c *burnCtx) Value(key any) any {
+	if _, ok := key.(burnKey); ok {
+		return c
+	}
+
+	return c.Context.Value(key)
+}
+
+func (c *burnCtx) burn() {
+	if !c.burnt {
+		c.burnt = true
+		close(c.done)
+	}
 }
 
 // world is a handler together with the scripted upstreams behind it.
@@ -315,6 +360,15 @@ type world interface {
 // a cancelled one it fails with context.Canceled (not a network error), with
 // an expired one with context.DeadlineExceeded (a net.Error: Timeout() is true).
 func effBeh(beh, ctx string, probe bool) string {
+	if beh == "bh" {
+		// An upstream that never answers: the request ends with the context, by
+		// its deadline (a net.Error) or by its cancellation (not one).
+		if ctx == "cancel" {
+			return "o4"
+		}
+
+		return "n3"
+	}
 	if beh != "cx" {
 		return beh
 	}
@@ -340,7 +394,7 @@ func effBehs(behs []string, ctx string, probe bool) []string {
 	return out
 }
 
-func ctxOf(kind string) (ctx context.Context, cancel func()) {
+func ctxOf(kind string, burnable bool) (ctx context.Context, cancel func()) {
 	switch kind {
 	case "cancel":
 		ctx, cancel = context.WithCancel(context.Background())
@@ -349,6 +403,10 @@ func ctxOf(kind string) (ctx context.Context, cancel func()) {
 		return ctx, func() {}
 	case "expired":
 		return context.WithDeadline(context.Background(), time.Now().Add(-time.Second))
+	}
+
+	if burnable {
+		return newBurnCtx(), func() {}
 	}
 
 	return context.Background(), func() {}
@@ -516,7 +574,8 @@ func runSchedule(w world, s *sched) (lines, obs []string, viols []finding, nontr
 		req.Id = uint16(4000 + step)
 		rw := dnsserver.NewNonWriterResponseWriter(&net.UDPAddr{IP: net.IPv4(127, 0, 0, 1), Port: 1},
 			&net.UDPAddr{IP: net.IPv4(127, 0, 0, 1), Port: 2})
-		ctx, cancel := ctxOf(p.Ctx)
+		_, isFake := w.(*fakeWorld)
+		ctx, cancel := ctxOf(p.Ctx, isFake)
 		var err error
 		if slot < 0 {
 			err = h.ServeDNS(ctx, rw, req)
@@ -557,6 +616,11 @@ func runSchedule(w world, s *sched) (lines, obs []string, viols []finding, nontr
 			} else {
 				mainCalls = append(mainCalls, c.idx)
 			}
+		}
+		if len(mainCalls) > 0 && mainCalls[0] < len(p.Main) && p.Main[mainCalls[0]] == "bh" && p.Ctx == "" {
+			// The main upstream never answered: the time of the query is used up
+			// when the fallback gets its turn.
+			efb = effBehs(p.Fb, "expired", false)
 		}
 		o := "sf"
 		if got >= 0 {
@@ -683,11 +747,18 @@ func runSchedule(w world, s *sched) (lines, obs []string, viols []finding, nontr
 			toks := make([]string, len(eff))
 			for u, b := range eff {
 				toks[u] = w.probeTok(u, b)
+				if p.Main[u] == "bh" {
+					toks[u] = "h"
+				}
+			}
+			deadArg := ""
+			if p.Ctx != "" {
+				deadArg = " dead"
 			}
 			fw, _ := w.(*fakeWorld)
 			inter := fw != nil && p.In != nil && !interleaveOff
 			if inter {
-				lines = append(lines, fmt.Sprintf("rb %d %s", now, strList(toks)))
+				lines = append(lines, fmt.Sprintf("rb %d %s%s", now, strList(toks), deadArg))
 				obs = append(obs, "ok")
 				seq = nil
 				fw.during = func(u int) {
@@ -705,7 +776,7 @@ func runSchedule(w world, s *sched) (lines, obs []string, viols []finding, nontr
 					seq = append(seq, fmt.Sprintf("p%d", u))
 				}
 			}
-			ctx, cancel := ctxOf(p.Ctx)
+			ctx, cancel := ctxOf(p.Ctx, fw != nil)
 			err := h.Refresh(ctx)
 			cancel()
 			if inter {
@@ -725,10 +796,16 @@ func runSchedule(w world, s *sched) (lines, obs []string, viols []finding, nontr
 			}
 			log := w.takeLog()
 			checkProbes(fmt.Sprintf("refresh at step %d", step))
-			var probed []int
+			// probed: the upstreams whose Exchange was called with a probe; sent:
+			// those for which the context of the round was still live at that
+			// moment, i.e. a probe really went out.
+			var probed, sent []int
 			for _, c := range log {
 				if !c.fb && c.probe {
 					probed = append(probed, c.idx)
+					if !c.dead {
+						sent = append(sent, c.idx)
+					}
 				}
 			}
 			act, ago, _ := forward.VerifC17State(h)
@@ -749,12 +826,40 @@ func runSchedule(w world, s *sched) (lines, obs []string, viols []finding, nontr
 				obs = append(obs, state+" seq="+strList(seq))
 				nontrivial = true
 			} else {
-				lines = append(lines, fmt.Sprintf("rf %d %s", now, strList(toks)))
+				lines = append(lines, fmt.Sprintf("rf %d %s%s", now, strList(toks), deadArg))
 				obs = append(obs, state)
 			}
 
 			// --- property oracle ---
-			for _, u := range probed {
+			// An upstream leaves the rotation because its own probe failed, not
+			// because the round ran out of time before its turn came (the probes
+			// share the context of the round) or was cancelled.
+			if s.NFb > 0 {
+				in := map[int]bool{}
+				for _, a := range act {
+					in[a] = true
+				}
+				for u := 0; u < s.NMain; u++ {
+					if healthy(u) && !containsInt(sent, u) && !in[u] {
+						violate("main-dropped-without-probe",
+							"refresh at t=%d (step %d): main upstream %d was in rotation, no probe was sent to it in this round "+
+								"(its Exchange was called with an already dead context: %v), yet it is out of the active list %v",
+							now, step, u, containsInt(probed, u), act)
+					}
+				}
+			}
+			// ctxDead[u]: by the oracle's own account the context was done when the
+			// loop reached u (done from the start, or an earlier upstream that was
+			// really probed never answered).
+			ctxDead := make([]bool, s.NMain)
+			deadNow := p.Ctx != ""
+			for u := 0; u < s.NMain; u++ {
+				ctxDead[u] = deadNow
+				if containsInt(sent, u) && u < len(p.Main) && p.Main[u] == "bh" {
+					deadNow = true
+				}
+			}
+			for _, u := range sent {
 				if last[u] == probedFailed && now-failedAt[u] < s.Backoff {
 					if w.probeOK(u, eff[u]) {
 						early[u] = true
@@ -775,7 +880,7 @@ func runSchedule(w world, s *sched) (lines, obs []string, viols []finding, nontr
 				// Recovery: an upstream whose backoff has elapsed must get its
 				// chance in this round.
 				for u := 0; u < s.NMain; u++ {
-					if last[u] == probedFailed && now-failedAt[u] >= s.Backoff && !containsInt(probed, u) {
+					if last[u] == probedFailed && now-failedAt[u] >= s.Backoff && !containsInt(probed, u) && !ctxDead[u] {
 						violate("no-probe-after-backoff", "refresh at t=%d: main upstream %d failed at t=%d, backoff %d, but was not probed",
 							now, u, failedAt[u], s.Backoff)
 					}
@@ -906,7 +1011,7 @@ var (
 
 func (f *fakeUps) Exchange(ctx context.Context, req *dns.Msg) (resp *dns.Msg, nw forward.Network, err error) {
 	isProbe := len(req.Question) == 1 && f.w.s.isProbeQ(req.Question[0])
-	f.w.log = append(f.w.log, call{fb: f.fb, idx: f.idx, probe: isProbe})
+	f.w.log = append(f.w.log, call{fb: f.fb, idx: f.idx, probe: isProbe, dead: ctx.Err() != nil})
 	if isProbe {
 		f.w.probes = append(f.w.probes, req)
 	}
@@ -922,9 +1027,17 @@ func (f *fakeUps) Exchange(ctx context.Context, req *dns.Msg) (resp *dns.Msg, nw
 	if isProbe && !f.fb && f.w.during != nil {
 		f.w.during(f.idx)
 	}
-	if beh == "cx" {
+	if beh == "cx" || beh == "bh" {
 		if cerr := ctx.Err(); cerr != nil {
 			return nil, forward.NetworkUDP, fmt.Errorf("upstreamplain: getting connection: %w", cerr)
+		}
+		if beh == "bh" {
+			// Nothing ever comes back: the read ends at the deadline of the context.
+			if b, ok := ctx.Value(burnKey{}).(*burnCtx); ok {
+				b.burn()
+			}
+
+			return nil, forward.NetworkUDP, errNet1
 		}
 		beh = "r"
 	}
@@ -1006,6 +1119,8 @@ func (w *fakeWorld) probeOK(_ int, beh string) bool { return beh == "ok" }
 // probeTok: what Exchange gives the probe (the model applies checkUpstream).
 func (w *fakeWorld) probeTok(_ int, beh string) string {
 	switch beh {
+	case "bh":
+		return "h"
 	case "ok", "r":
 		return "r0"
 	case "sf", "rs":
@@ -1065,9 +1180,9 @@ func newFakeWorld(s *sched) *fakeWorld {
 }
 
 var (
-	fakeQ  = []string{"r", "r", "r", "rs", "n1", "n2", "n3", "o1", "o2", "o3", "o4", "z", "cx"}
-	fakeP  = []string{"ok", "ok", "ok", "sf", "nx", "n1", "o1", "z", "cx", "cx"}
-	fakeFQ = []string{"r", "r", "rs", "n1", "n2", "o1", "o3", "z", "cx"}
+	fakeQ  = []string{"r", "r", "r", "rs", "n1", "n2", "n3", "o1", "o2", "o3", "o4", "z", "cx", "bh"}
+	fakeP  = []string{"ok", "ok", "ok", "sf", "nx", "n1", "o1", "z", "cx", "cx", "bh", "bh"}
+	fakeFQ = []string{"r", "r", "rs", "n1", "n2", "o1", "o3", "z", "cx", "bh"}
 )
 
 // genSched draws a schedule.  extras (in-memory world only) adds what only that
@@ -1463,6 +1578,22 @@ func fakeCampaign(o *hlib.Opts, r *hlib.Result, m *hlib.Model) {
 							alpha = append(alpha, pi)
 						}
 					}
+				}
+				if nFb > 0 {
+					// A round in which main 0 never answers and so uses up the time of
+					// the round (the others would answer), and a round that is cancelled
+					// before it starts.
+					hang := op{Kind: "rf"}
+					dead := op{Kind: "rf", Ctx: "cancel"}
+					for u := 0; u < nMain; u++ {
+						if u == 0 {
+							hang.Main = append(hang.Main, "bh")
+						} else {
+							hang.Main = append(hang.Main, "ok")
+						}
+						dead.Main = append(dead.Main, "cx")
+					}
+					alpha = append(alpha, hang, dead)
 				}
 				alpha = append(alpha, op{Kind: "adv", K: 1})
 				// NewHandler with its initial health check (all probes fail), one level less.
